@@ -127,7 +127,7 @@ func (allocEngine) Gen(rng *rand.Rand, tier string, i int) any {
 		c.Ops = 400
 	}
 	c.PoolLen, c.Page = sh[0], sh[1]
-	if rng.Intn(20) == 0 {
+	if rng.Intn(10) == 0 {
 		// pools that contain IPv4-mapped space (::ffff:0:0/96) without being written in that form: some of their
 		// block bases are addresses net.IP.To4 answers for, the pool base is not
 		m := [][3]string{{"0000000000000000 0000fffe00000000", "95", "96"}, {"0000000000000000 0000ffc000000000", "90", "100"}, {"0000000000000000 0000ff0000000000", "88", "96"},
@@ -440,6 +440,15 @@ func (r *allocRun) doAlloc() {
 		}
 	case k < 8: // hint on an outstanding block
 		if b, ok := r.pickBlock(true); ok {
+			if r.rng.Intn(3) == 0 {
+				// (the first and the last block, and those around word boundaries, more often than the rest)
+				for _, sb := range []uint64{p.N - 1, 0, 63, 64, 127} {
+					if sb < p.N && r.out[sb] && r.rng.Intn(2) == 0 {
+						b = sb
+						break
+					}
+				}
+			}
 			class = "taken-block"
 			hint.IP = r.addrIn(int64(b), r.rng.Intn(2) == 0)
 			r.refusedIP, r.refusedBlock = append(net.IP(nil), hint.IP...), b
